@@ -57,7 +57,9 @@ def gen_export(rng):
         all_c = rng.sample([11, 12, 13, 14], rng.randint(0, 4))
         tab, batch, recid = rng.randint(1, 99), rng.randint(1, 20), rng.randint(1, 500)
         sess = {"TabulatorId": tab, "BatchId": batch, "RecordId": recid, "CountingGroupId": rng.choice((1, 2)),
-                "ImageMask": f"D:\\\\NAS\\\\Images\\\\{tab:05d}_{batch:05d}_{recid:06d}*.*", "SessionType": "ScannedVote",
+                "ImageMask": rng.choice(("D:\\\\NAS\\\\Images\\\\", "D:\\\\NAS\\\\2024_11_05 GENERAL\\\\Results\\\\Images\\\\",
+                                         "E:\\\\3_4_5\\\\Tabulator00007\\\\Batch003\\\\Images\\\\", ""))
+                             + f"{tab:05d}_{batch:05d}_{recid:06d}*.*", "SessionType": "ScannedVote",
                 "VotingSessionIdentifier": ""}
         if rng.random() < 0.3:
             sess["RecordId"] = "X"
